@@ -218,28 +218,21 @@ func equal(lhsV, rhsV reflect.Value) bool {
 	}
 
 	// Compare a string and a number.
-	// This will attempt to convert the string to a number,
-	// while leaving the other side alone. Code further
-	// down takes care of converting ints and floats as needed.
+	// The string is read as the number it denotes - a decimal integer if it is
+	// one, else a float - by the same rule whichever side it is on, so that
+	// == stays symmetric. Code further down compares ints and floats.
 	if isNum(lhsV) && rhsV.Kind() == reflect.String {
-		rhsF, err := tryToFloat64(rhsV)
-		if err != nil {
-			// Couldn't convert RHS to a float, they can't be compared.
+		var ok bool
+		rhsV, ok = numberFromString(rhsV)
+		if !ok {
+			// Couldn't convert RHS to a number, they can't be compared.
 			return false
 		}
-		rhsV = reflect.ValueOf(rhsF)
 	} else if lhsV.Kind() == reflect.String && isNum(rhsV) {
-		// If the LHS is a string formatted as an int, try that before trying float
-		lhsI, err := tryToInt64(lhsV)
-		if err != nil {
-			// if LHS is a float, e.g. "1.2", we need to set lhsV to a float64
-			lhsF, err := tryToFloat64(lhsV)
-			if err != nil {
-				return false
-			}
-			lhsV = reflect.ValueOf(lhsF)
-		} else {
-			lhsV = reflect.ValueOf(lhsI)
+		var ok bool
+		lhsV, ok = numberFromString(lhsV)
+		if !ok {
+			return false
 		}
 	}
 
@@ -255,9 +248,14 @@ func equal(lhsV, rhsV reflect.Value) bool {
 		if lhsKind == rhsKind {
 			return toFloat64(lhsV) == toFloat64(rhsV)
 		}
-		// mixed types: use string representation for compatibility
-		// (e.g. float32(1.1) should equal float64(1.1))
-		return numToString(lhsV) == numToString(rhsV)
+		if lhsIsFloat && rhsIsFloat {
+			// float32 against float64: use string representation for compatibility
+			// (e.g. float32(1.1) should equal float64(1.1))
+			return numToString(lhsV) == numToString(rhsV)
+		}
+		// an integer and a float are equal exactly when <= and >= both hold,
+		// which the ordering operators decide in float64
+		return toFloat64(lhsV) == toFloat64(rhsV)
 	}
 
 	// Try to compare bools to strings and numbers
@@ -274,6 +272,18 @@ func equal(lhsV, rhsV reflect.Value) bool {
 	}
 
 	return reflect.DeepEqual(lhsV.Interface(), rhsV.Interface())
+}
+
+// numberFromString returns the number a string denotes for equal:
+// an int64 when it is a decimal integer, else a float64.
+func numberFromString(v reflect.Value) (reflect.Value, bool) {
+	if i, err := tryToInt64(v); err == nil {
+		return reflect.ValueOf(i), true
+	}
+	if f, err := tryToFloat64(v); err == nil {
+		return reflect.ValueOf(f), true
+	}
+	return v, false
 }
 
 // isHashable returns true if the value can be used as a map key without
